@@ -242,6 +242,13 @@ def pipeline_world(variant):
         W.add_sites_for_blocks(w, "chr1", nov_f, "+")
         for i in range(6):
             reads.append(W.read_of("nf_%d" % i, "chr1", nov_f))
+    if variant == "lifted":
+        # a reference lifted from another assembly: a transcript that now lies on chr2 carries exon ids (and a transcript id) that an
+        # earlier IsoQuant run made up when the locus was part of chr1
+        g2 = [g for g in w["genes"] if g["id"] == "G2"][0]
+        t4 = g2["transcripts"][0]
+        t4["id"] = "transcript1.chr1.nnic"
+        t4["exon_ids"] = dict(("%d-%d" % (s_, e_), "chr1.%d" % (i + 1)) for i, (s_, e_) in enumerate(t4["exons"]))
     W.dedup_sites(w)
     w["reads"] = reads
     if variant == "dotted":
@@ -363,6 +370,8 @@ def pipeline_case(args):
         gtf = os.path.join(d, "ref_it%d.gtf" % (it + 1))
         shutil.copy(eg, gtf)
     shutil.rmtree(d, ignore_errors=True)
+    if variant == "lifted":
+        errs = [(k + ":id-names-another-chromosome", m) for k, m in errs]
     return variant, strategy, nruns, novel_total, [(k, ("reads per iteration %s: " % list(history)) + m) for k, m in errs]
 
 
@@ -425,6 +434,7 @@ def run(ctx):
     jobs.append(("dotted", "all", 2 if quick else 3, ctx.scratch))
     for s in strategies:
         jobs.append(("cds", s, 2, ctx.scratch))
+    jobs.append(("lifted", "all", 1, ctx.scratch))
     # histories: the annotation of iteration i+1 is the extended annotation of iteration i, obtained from ANOTHER read set, so that ids
     # generated earlier meet novel transcripts of the same loci generated later
     sets = ("R0", "R1", "R2")
